@@ -16,7 +16,8 @@ import (
 
 func init() {
 	register(&Property{
-		ID: "C09",
+		ID:    "C09",
+		Yield: true,
 		Rule: "1..32 concurrent senders (user goroutines plus parallel foreground and background handler invocations) each issue numbered lines 'S<sender> <counter> <payload>' (payload 0..480 bytes) through Raw and, for one line in six, through Privmsg / Notice / Topic / Quit " +
 			"while the server end reads fast, one write per token, or in bursts; flood control off; connection stays up. After all senders returned and a trailing separator reached the wire, the transcript must contain " +
 			"every issued line exactly once, byte for byte, nothing else, and each sender's counters in increasing order. A run is non-trivial when lines of >= 2 senders were interleaved on the wire and the output " +
